@@ -73,6 +73,15 @@ pub(crate) struct FlushWorker<T: Types> {
     /// `Relaxed` is sufficient because the actual data synchronization is
     /// provided by the `RwLock` on `PayloadCache`.
     done_seq: Arc<AtomicU64>,
+
+    /// Whether the most recent sync failed.
+    ///
+    /// While it is set, purged chunk files must not be removed: the purge
+    /// record that makes them obsolete may not be on disk yet.
+    sync_failed: bool,
+
+    /// Paths of purged chunk files waiting to be removed.
+    removable_chunks: Vec<String>,
 }
 
 impl<T: Types> FlushWorker<T> {
@@ -97,6 +106,8 @@ impl<T: Types> FlushWorker<T> {
             files: vec![file_entry],
             cache,
             done_seq,
+            sync_failed: false,
+            removable_chunks: Vec::new(),
         }
     }
 
@@ -164,6 +175,7 @@ impl<T: Types> FlushWorker<T> {
                             e
                         );
                     }
+                    self.sync_failed = res.is_err();
                     res
                 } else {
                     Ok(())
@@ -183,6 +195,9 @@ impl<T: Types> FlushWorker<T> {
                     }
                 }
             }
+
+            // A successful sync makes postponed chunk removals safe.
+            self.remove_chunks_if_synced()?;
 
             // Handle the last non-flush request
             if let Some(SeqRequest {
@@ -224,12 +239,31 @@ impl<T: Types> FlushWorker<T> {
             }
             WorkerRequest::RemoveChunks { chunk_paths } => {
                 info!("FlushWorker: RemoveChunks: {:?}", chunk_paths);
-                for path in chunk_paths {
-                    std::fs::remove_file(path)?;
-                }
+                self.removable_chunks.extend(chunk_paths);
+                self.remove_chunks_if_synced()?;
             }
         }
 
+        Ok(())
+    }
+
+    /// Remove the purged chunk files, unless the last sync failed: then the
+    /// purge record may not be durable, and the files are kept until a later
+    /// sync succeeds.
+    fn remove_chunks_if_synced(&mut self) -> Result<(), io::Error> {
+        if self.sync_failed {
+            if !self.removable_chunks.is_empty() {
+                info!(
+                    "FlushWorker: postpone RemoveChunks until a sync succeeds: {:?}",
+                    self.removable_chunks
+                );
+            }
+            return Ok(());
+        }
+
+        for path in self.removable_chunks.drain(..) {
+            std::fs::remove_file(path)?;
+        }
         Ok(())
     }
 
